@@ -22,6 +22,7 @@ RULE = (
     "{{ you }} placeholders), with/without plural, count in {-1,0,1,2,5, '2', 1.0}, context and keyword variables. Expected: message with "
     "%(name)s replaced by the stringified variable and nothing else touched (tag: compared after collapsing whitespace runs). "
     "Non-trivial = message containing a % sign or a placeholder or a plural choice, distinct by source+data."
+    " Rounds 5-6 added enumerated families: hyphenated and ?-suffixed placeholder names; percent signs inside variable values; count / plural / context combinations chosen independently of the enumeration order."
 )
 REQUIRED = [
     ("liquid/extra/filters/translate.py", "BaseTranslateFilter.format_message"),
